@@ -1,6 +1,6 @@
 \* control: an Extractor value that does NOT reset its deferred updates at the start of a call must be found to
 \* touch the previous target from the next call
-SPECIFICATION Spec
+SPECIFICATION SpecReuse
 CONSTANTS Names <- NamesReuse
           DirMeta <- MetaOne
           LinkTargets <- TargetsOne
